@@ -91,7 +91,26 @@ _ONE_FILES = [[["src", "a.c"], [["Inc", ["Q", ["api.h"]]], ["Inc", ["Q", ["fwd.h
               [["src", "fwd.h"], [["Def", "W0", 1]]]]
 _ONE_E = lambda f, incs=(): [["src", f], [], [], [list(i) for i in incs]]
 
+# the shape of a third seeded regression (computed include memoised on the shared tree node, keyed by the spelling
+# of the macro named in the directive): backend.h does `#define H0 H0__P` / `#include H0` where H0__P is "g.h" or
+# "h.h" by an #ifdef on the per-command flag F0; host.c and device.c include backend.h and test what it pulls in
+_CI_FILES = [[["src", "a.c"], [["Inc", ["Q", ["bk.h"]]], ["If", ["Eq", "V0", 1]], ["Code"], ["Else"], ["Code"], ["Endif"]]],
+             [["src", "b.c"], [["Inc", ["Q", ["bk.h"]]], ["If", ["Eq", "V0", 1]], ["Code"], ["Else"], ["Code"], ["Endif"]]],
+             [["src", "bk.h"], [["If", ["Defd", "F0"]], ["Def", "H0__P", ["P", False, ["g.h"]]], ["Def", "H0", ["P", False, ["g.h"]], "H0__P"], ["Else"],
+                                ["Def", "H0__P", ["P", False, ["h.h"]]], ["Def", "H0", ["P", False, ["h.h"]], "H0__P"], ["Endif"],
+                                ["Inc", ["M", "H0"]]]],
+             [["src", "g.h"], [["Def", "V0", 1], ["Code"]]],
+             [["src", "h.h"], [["Def", "V0", 2], ["Code"]]]]
+_CI_E = lambda f, flag: [["src", f], [], ([["F0", "E"]] if flag else []), []]
+_CI_D = lambda f, h: [["src", f], [], [["H0", ["P", False, [h]], "H0__P"], ["H0__P", ["P", False, [h]]]], []]
+_CI_FILES_D = [_CI_FILES[0], _CI_FILES[1], [["src", "bk.h"], [["Inc", ["M", "H0"]]]], _CI_FILES[3], _CI_FILES[4]]
+
 CORPUS_EXTRA = [
+    ["lib", _CI_FILES, [["P0", [_CI_E("a.c", True), _CI_E("b.c", False)]]], 31],
+    ["lib", _CI_FILES, [["P0", [_CI_E("b.c", False), _CI_E("a.c", True)]], ["P1", [_CI_E("a.c", False)]]], 32],
+    ["cli", _CI_FILES, [["P0", [_CI_E("a.c", True)]], ["P1", [_CI_E("b.c", False)]]], 33],
+    ["lib", _CI_FILES_D, [["P0", [_CI_D("a.c", "g.h"), _CI_D("b.c", "h.h")]], ["P1", [_CI_D("b.c", "g.h")]]], 34],
+    ["cli", _CI_FILES_D, [["P0", [_CI_D("a.c", "g.h")]], ["P1", [_CI_D("b.c", "h.h")]]], 35],
     ["lib", _ONE_FILES, [["P0", [_ONE_E("a.c"), _ONE_E("b.c")]], ["P1", [_ONE_E("b.c")]]], 21],
     ["lib", _ONE_FILES, [["P0", [_ONE_E("a.c", [["fwd.h"]]), _ONE_E("b.c", [["fwd.h"]])]]], 22],
     ["cli", _ONE_FILES, [["P0", [_ONE_E("b.c"), _ONE_E("a.c"), _ONE_E("b.c")]], ["P1", [_ONE_E("a.c")]]], 23],
@@ -132,6 +151,7 @@ class C08(Check):
             "re-run in a fresh subprocess); plus an exhaustive block over 4 entries x 2 micro code bases and a malformed stream. "
             "2-4 commands of a platform often share IDENTICAL options with 0-2 -include, and compiled files define/undefine private macros (T0-T2) that other compiled files and shared headers test; "
             "0-2 single-node files (a header that is only an #include / #define / #undef / #pragma once / one code block) reached early by the compiled files; "
+            "30 % of the cases have a computed include whose macro differs per command (-D or #ifdef), and in half of the cases with a path-valued macro it is rendered two-level (#define H0 H0__P); "
             "non-trivial = the hoisted-Platform, cached-include or prefix-header-cache variant of the model gives a different attribution on the case "
             "(i.e. the case can expose state leaking between commands)")
     assumptions = ["paths are absolute, normalised, without symbolic links (C13/C15)",
@@ -141,7 +161,7 @@ class C08(Check):
     def __init__(self, tier, seed):
         super().__init__(tier, seed)
         self.sensitive = {}
-        self.dist = {"lib": 0, "cli": 0, "platforms": {}, "commands": {}, "hoisted_differs": 0, "cached_differs": 0, "prefix_cache_differs": 0, "cases_with_same_option_group": 0, "cases_with_single_node_file": 0,
+        self.dist = {"lib": 0, "cli": 0, "platforms": {}, "commands": {}, "hoisted_differs": 0, "cached_differs": 0, "prefix_cache_differs": 0, "cases_with_same_option_group": 0, "per_command_computed_include_cases": 0, "cases_with_path_macro": 0, "cases_with_indirect_path_macro": 0, "cases_with_single_node_file": 0,
                      "impl_find_calls": 0, "cli_inproc_calls": 0, "cli_subprocess_calls": 0, "malformed": 0, "exhaustive_block": 0}
         self.subproc_budget = 6 if tier == "quick" else 60
 
@@ -155,6 +175,50 @@ class C08(Check):
                 for e in es:
                     if self.rng.random() < 0.3:
                         e.append(self.rng.choice([0, 1, 2, 2]))
+        rng = self.rng
+        if rng.random() < 0.3:
+            # computed includes whose macro differs per command: the SAME `#include H0` node (in every compiled
+            # file, or in one shared header) is reached by several commands with different values of H0,
+            # set by -D or chosen by an #ifdef on a per-command flag
+            self.dist["per_command_computed_include_cases"] += 1
+            form = rng.choice(["dash_d", "dash_d", "ifdef"])
+            inc = [["If", ["Defd", "H0"]], ["Inc", ["M", "H0"]], ["Endif"]]
+            if form == "dash_d":
+                target = rng.choice(["mains", "header"])
+                for _, es in cfg:
+                    for e in es:
+                        if not any(d[0] == "H0" for d in e[2]) and rng.random() < 0.85:
+                            e[2].append(["H0", ["P", rng.random() < 0.3, rng.choice(names)]])
+            else:
+                target = "header"
+                a, b = rng.choice(names), rng.choice(names)
+                inc = [["If", ["Defd", "F0"]], ["Undef", "H0"], ["Def", "H0", ["P", False, a]], ["Else"],
+                       ["Undef", "H0"], ["Def", "H0", ["P", rng.random() < 0.3, b]], ["Endif"], ["Inc", ["M", "H0"]]]
+                for _, es in cfg:
+                    for e in es:
+                        e[2][:] = [d for d in e[2] if d[0] != "F0"] + ([["F0", rng.choice(["E", 1])]] if rng.random() < 0.5 else [])
+            by = {U.pstr(p): f for f in files for p in [f[0]]}
+            if target == "header":
+                hp = ["src", "bk.h"]
+                files.append([hp, normalise(inc + [["Code"]])])
+                files.sort(key=lambda f: f[0])
+                for m in mains:
+                    by[U.pstr(m)][1][:0] = [["Inc", ["Q" if m[:-1] == ["src"] else "A", ["bk.h"]]]]
+                for _, es in cfg:
+                    for e in es:
+                        if ["src"] not in e[1] and e[0][:-1] != ["src"]:
+                            e[1].append(["src"])
+            else:
+                for m in mains:
+                    by[U.pstr(m)][1][:0] = [list(x) for x in inc]
+        has_vp = any(l[0] == "Def" and isinstance(l[2], list) for _, ls in files for l in ls) or \
+            any(isinstance(d[1], list) for _, es in cfg for e in es for d in e[2])
+        if has_vp:
+            self.dist["cases_with_path_macro"] += 1
+            if rng.random() < 0.5:
+                # two-level rendering of every path-valued macro (see c08_util.make_indirect)
+                files, cfg = U.make_indirect(files, cfg)
+                self.dist["cases_with_indirect_path_macro"] += 1
         if wild and self.rng.random() < 0.4:
             # break the nesting of one file
             f = self.rng.choice(files)
@@ -181,7 +245,8 @@ class C08(Check):
 
     def encode(self, case):
         kind, files, cfg, seed = case
-        return enc([[[p, ls] for p, ls in files], U.weights_of(files), U.expand_cfg(cfg)])
+        cfg_m = [[pn, [[e[0], e[1], U.strip_alias_defs(e[2]), e[3]] for e in es]] for pn, es in U.expand_cfg(cfg)]
+        return enc([[[p, U.strip_alias_lines(ls)] for p, ls in files], U.weights_of(files), cfg_m])
 
     # ---- implementation ----
     def impl(self, case):
@@ -353,6 +418,8 @@ class C08(Check):
     def in_domain(self, case, sa):
         if sa is None or sa[0] not in ("Ok", "Cli"):
             return False
+        if not U.alias_invariant(case[1], case[2]):
+            return False          # only a shrinking step can produce this: the two renderings are then not equivalent
         return all(balanced(ls) for _, ls in case[1])
 
     def nontrivial(self, case, ia):
